@@ -67,7 +67,7 @@ pub fn gen_cuc2_pose(r: &mut Rng, lat: bool, fam: usize) -> (d2::Isometry<f64>, 
         0 => {
             let q = r.below(4);
             let base = [(1.0, 0.0), (0.0, 1.0), (-1.0, 0.0), (0.0, -1.0)][q as usize];
-            let tilt = if lat { 0.0 } else { match r.below(4) { 0 => 0.0, 1 => r.logu(1e-9, 1e-4), 2 => r.logu(1e-4, 2e-2), _ => r.uniform(0.0, 0.2) } * if r.bool() { 1.0 } else { -1.0 } };
+            let tilt = if lat { 0.0 } else { (match r.below(4) { 0 => 0.0, 1 => r.logu(1e-9, 1e-4), 2 => r.logu(1e-4, 2e-2), _ => r.uniform(0.0, 0.2) }) * if r.bool() { 1.0 } else { -1.0 } };
             let rot = d2::na::UnitComplex::new(tilt) * rot_of(base.0, base.1);
             let rot = if tilt == 0.0 { rot_of(base.0, base.1) } else { rot };
             let i = r.below(2) as usize; let j = 1 - i;
